@@ -9,25 +9,36 @@ from . import _jgen as G
 
 LEVEL = "proof"
 # C functions this check's models mirror (source-text fingerprints are recorded in the evidence, see translate/funchash.py)
-MODELLED_FUNCS = {'src/json/iwjson.c': ['_jbl_merge_patch_node', 'jbn_merge_patch', 'jbn_merge_patch_from_json', 'jbl_merge_patch', 'jbl_merge_patch_jbl', 'jbn_merge_patch_path']}
+MODELLED_FUNCS = {'src/json/iwjson.c': ['_jbl_merge_patch_node', 'jbn_merge_patch', 'jbn_merge_patch_from_json', 'jbl_merge_patch', 'jbl_merge_patch_jbl', 'jbn_merge_patch_path', '_jbl_node_from_binn', '_jbl_binn_from_node', '_jbl_from_node_impl']}
 MANIFEST = dict(
     level="proof",
     text=("Lean 4 theorems over an executable model of iowow's JSON Merge Patch (the recursive member walk of "
           "_jbl_merge_patch_node and its seven entry points, incl. the path form that wraps a value in nested objects): the "
           "model equals MergePatch(target, patch) of RFC 7386 for every pair of documents, member by member (null deletes, "
-          "objects merge recursively, anything else replaces), and the path form equals merging the wrapped value; the model is "
+          "objects merge recursively, anything else replaces), and the path form equals merging the wrapped value; jbl_merge_patch "
+          "and jbl_merge_patch_jbl are also modelled on the binn BYTES as the composition C14 reader -> merge -> C14 writer -> swap "
+          "(jbl_merge_bytes*): for every holder whose bytes decode to a well-formed document and every patch, the new bytes are the "
+          "writer's encoding of MergePatch(decoded old bytes, patch), decode to it and are well-formed again (iterated over a list of "
+          "patches: jbl_merge_bytes_seq); a result the binary form cannot hold => JBL_ERROR_CREATION; any error => bytes unchanged; the model is "
           "tied to the code by a differential run of jbn_merge_patch (pool and heap), jbn_merge_patch_from_json, jbn_patch_auto, "
           "jbl_merge_patch, jbl_merge_patch_jbl, jbn_merge_patch_path and iwjsreg_merge against the compiled Lean definitions, with an "
-          "independent python RFC 7386 function as oracle; heap mode runs under ASan (double free / use after free)"),
+          "independent python RFC 7386 function as oracle - the two binary entry points also byte for byte (binn bytes in, the "
+          "holder's buffer out, single calls and sequences on one holder; python binn decoder in the oracle); heap mode runs under "
+          "ASan (double free / use after free)"),
     note=("trusted: Lean kernel, harness/generator, python oracle, gcc+ASan/UBSan; modelled not verified: the C control flow of "
-          "the functions named; documents have unique keys (ignoring ASCII case), no NUL bytes; binn encode/decode and JSON "
-          "text print/parse are taken as the identity on such documents (C13, C14); memory ownership of the heap mode is "
+          "the functions named; documents have unique keys (ignoring ASCII case), no NUL bytes (results violating the key "
+          "conditions: byte-level theorems and stream - refused, bytes unchanged); hypotheses of the byte-level theorems: patch "
+          "integers fit int64, strings/keys NUL free (leafOk), encoded result shorter than 2^31-9 bytes; JSON text print/parse of "
+          "the patch is taken as the identity (C13; for jbl_merge_patch_jbl: the text of the patch holder reads back as the "
+          "document it holds, C13/C14 print_agree); memory ownership of the heap mode is "
           "observed by ASan only (leaks are not checked)"),
     technique="Lean 4 proof over executable model + differential correspondence (C harness vs compiled Lean driver) + python RFC 7386 oracle")
 MODULE = "IwModel.Props.C16"
 THEOREMS = ["IwModel.C16.merge_rfc", "IwModel.C16.merge_rfc_absent", "IwModel.C16.merge_nonobject_replaces",
             "IwModel.C16.merge_members", "IwModel.C16.merge_entry_points", "IwModel.C16.merge_patch_root",
-            "IwModel.C16.merge_path", "IwModel.C16.merge_path_root"]
+            "IwModel.C16.merge_path", "IwModel.C16.merge_path_root",
+            "IwModel.C16.jbl_merge_bytes_atomic", "IwModel.C16.merge_result_leafOk", "IwModel.C16.jbl_merge_bytes",
+            "IwModel.C16.jbl_merge_jbl_bytes", "IwModel.C16.jbl_merge_bytes_seq"]
 
 BIN = ("jbl", "jbljbl")
 MODES = ["node", "heap", "njson", "auto", "jbl", "jbljbl"]
@@ -443,10 +454,14 @@ def run(ctx):
                        "jbn_merge_patch_from_json, jbn_patch_auto, jbl_merge_patch, jbl_merge_patch_jbl, jbn_merge_patch_path pool/heap, iwjsreg_merge); "
                        "patches are generated from the target so that members are deleted, merged, replaced across types in both "
                        "directions, added, with nested nulls, empty objects, nulls inside arrays, keys that are prefixes of one another; "
-                       "also non-object patches and non-object targets; distinct = distinct op line; every case performs a merge")
+                       "also non-object patches and non-object targets; byte-level streams: target (and for jbl_merge_patch_jbl the patch) "
+                       "handed over as binn bytes, the holder's buffer compared byte for byte with the composed Lean model, single calls and "
+                       "2-5 merges on one holder, incl. patches whose result the binary form cannot hold (keys of 255/256+ bytes, keys equal "
+                       "ignoring ASCII case); distinct = distinct op line; every case performs a merge")
     ctx.assumptions += ["documents have unique member names (also ignoring ASCII case) and no NUL bytes in keys/strings (what the binary form can hold, C14)",
                         "doubles are not integer-valued (their text form would read back as an integer in the text entry points)",
-                        "heap-mode leaks are not checked (ASan leak detection is off); double free / use after free are"]
+                        "heap-mode leaks are not checked (ASan leak detection is off); double free / use after free are",
+                        "byte-level ops: input buffers are well-formed documents (malformed buffers are C17's); the oracle decodes the output with its own binn reader and compares values, bytes are compared with the Lean model only; a holder whose root became a scalar is compared as a value"]
     selftest_note(ctx)
     ctx.translate()
     ok, drv_ok = ctx.prove(MODULE, THEOREMS)
